@@ -73,7 +73,7 @@ def h_txid(ctx, sig, spk, wit1, wit2):
 
 
 def h_twins(ctx, sig, spk, wit):
-    """mutable and immutable objects with equal field values: same serialisation, identifiers, ==, hash()"""
+    """mutable and immutable objects with equal field values: same serialisation, identifiers, ==, ctx.hash()"""
     C = ctx.core
     f = K.mk_tx_fields(ctx, dict(sig=sig, spk=spk, wit=wit))
     a = K.build_tx(ctx, f, False)
@@ -86,19 +86,19 @@ def h_twins(ctx, sig, spk, wit):
     ctx.check(ctx.and_(*[ctx.and_(o.GetTxid() == a.GetTxid(), o.GetHash() == a.GetHash()) for o in objs]),
               'mutable == immutable: identifiers')
     ctx.check(ctx.and_(a == b, b == a, c == d, ctx.not_(a != b)), 'mutable == immutable: ==')
-    ctx.check(ctx.and_(*[hash(o) == hash(a) for o in objs]), 'mutable == immutable: hash()')
+    ctx.check(ctx.and_(*[ctx.hash(o) == ctx.hash(a) for o in objs]), 'mutable == immutable: ctx.hash()')
     # cached identifier of the immutable equals the recomputed one
     ctx.check(a.GetHash() == ctx.serialize.Hash(a.serialize()), 'cached GetHash == recomputed')
     ctx.check(a.GetHash() == a.GetHash(), 'GetHash stable')
     # parts
     for i in range(len(f['vin'])):
         m, im = b.vin[i], a.vin[i]
-        ctx.check(ctx.and_(m.serialize() == im.serialize(), m.GetHash() == im.GetHash(), m == im, hash(m) == hash(im),
+        ctx.check(ctx.and_(m.serialize() == im.serialize(), m.GetHash() == im.GetHash(), m == im, ctx.hash(m) == ctx.hash(im),
                            m.prevout == im.prevout, m.prevout.GetHash() == im.prevout.GetHash(),
-                           hash(m.prevout) == hash(im.prevout)), 'mutable == immutable: inputs/outpoints')
+                           ctx.hash(m.prevout) == ctx.hash(im.prevout)), 'mutable == immutable: inputs/outpoints')
     for j in range(len(f['vout'])):
         m, im = b.vout[j], a.vout[j]
-        ctx.check(ctx.and_(m.serialize() == im.serialize(), m.GetHash() == im.GetHash(), m == im, hash(m) == hash(im)),
+        ctx.check(ctx.and_(m.serialize() == im.serialize(), m.GetHash() == im.GetHash(), m == im, ctx.hash(m) == ctx.hash(im)),
                   'mutable == immutable: outputs')
 
 
@@ -108,7 +108,7 @@ def h_edited(ctx, sig, spk, wit):
     C = ctx.core
     f = K.mk_tx_fields(ctx, dict(sig=sig, spk=spk, wit=wit))
     m = K.build_tx(ctx, f, True)
-    old = (m.GetTxid(), m.GetHash(), hash(m), m.serialize())
+    old = (m.GetTxid(), m.GetHash(), ctx.hash(m), m.serialize())
     g = dict(f)
     g['nLockTime'] = ctx.int('new_lock', 0, 0xffffffff)
     g['nVersion'] = ctx.int('new_ver', -(1 << 31), (1 << 31) - 1)
@@ -127,7 +127,7 @@ def h_edited(ctx, sig, spk, wit):
     ctx.check(m.serialize() == W.tx(ctx, g), 'edited mutable: serialisation reflects current fields')
     ctx.check(ctx.and_(m.GetTxid() == im.GetTxid(), m.GetHash() == im.GetHash()), 'edited mutable: identifiers == immutable twin of the new values')
     ctx.check(m.GetTxid() == ctx.dsha256(W.tx(ctx, g, with_witness=False)), 'txid == H(H(stripped encoding))')
-    ctx.check(ctx.and_(m == im, hash(m) == hash(im)), 'edited mutable: == and hash() follow the new values')
+    ctx.check(ctx.and_(m == im, ctx.hash(m) == ctx.hash(im)), 'edited mutable: == and ctx.hash() follow the new values')
     ctx.check(m.vin[0].GetHash() == im.vin[0].GetHash(), 'edited mutable: input identifier follows the new values')
 
 
